@@ -50,11 +50,14 @@ def gen_cases(tier, seed):
     yield "commands", {"sizes": SIZES[7:], "salt": rng.getrandbits(32)}
     for i in range(40 if q else 600):
         yield "codec_version", {"salt": rng.getrandbits(40)}
-    for c in [0, 1, 2, 3, 252, 253, 254, 300] + ([] if q else [2000, 65535, 65536]):
+    # counts across the CompactSize forms AND around the limits the protocol documentation gives (addr 1000, locator 101, headers 2000, inv 50000)
+    for c in [0, 1, 2, 3, 100, 101, 102, 252, 253, 254, 300, 999, 1000, 1001, 2000] + ([] if q else [2001, 49999, 50000, 50001, 65535, 65536]):
         yield "codec_getheaders", {"count": c, "salt": rng.getrandbits(40)}
-    for c in [0, 1, 2, 252, 253, 254, 300] + ([] if q else [50000, 65536]):
+    for c in [0, 1, 2, 252, 253, 254, 300, 999, 1000, 1001, 2000] + ([] if q else [49999, 50000, 50001, 65535, 65536]):
         yield "codec_inv", {"count": c, "salt": rng.getrandbits(40)}
         yield "codec_addr", {"count": c, "salt": rng.getrandbits(40)}
+    for i in range(3 if q else 30):
+        yield "arg_forms", {"salt": rng.getrandbits(40)}
     yield "codec_ping", {"salt": rng.getrandbits(40)}
     for i in range(20 if q else 300):
         yield "codec_small", {"salt": rng.getrandbits(40)}
@@ -133,6 +136,15 @@ def run_case(kind, params, ctx):
     import bits.p2p as p2p
     p2p.set_magic_start_bytes("mainnet")
     rng = rng_for("C17", kind, params.get("salt", 0))
+    if kind == "arg_forms":
+        from .common import arg_forms
+        ip = b"::ffff:127.0.0.1"
+        arg_forms(ctx, "parse_version_payload", p2p.parse_version_payload, [rp.version_payload(70015, 1, 1700000000, 0, ip, 8333, 1, ip, 8333, rng.getrandbits(64), b"/x/", 5, True)])
+        arg_forms(ctx, "parse_inv_payload", p2p.parse_inv_payload, [rp.inv_payload([("MSG_TX", rand_bytes(rng, 32)), ("MSG_BLOCK", rand_bytes(rng, 32))])])
+        arg_forms(ctx, "parse_addr_payload", p2p.parse_addr_payload, [rp.addr_payload([(1700000000, rand_bytes(rng, 8), rand_bytes(rng, 16), 8333)])])
+        arg_forms(ctx, "msg_ser", lambda pl: p2p.msg_ser(MAG, b"ping", pl), [rand_bytes(rng, 8)])
+        ctx.nontrivial()
+        return
     if kind == "hdr_transitions":
         s = params["sofar"]
         for c in range(1, 24 - s + 1):
